@@ -59,6 +59,12 @@ func (seq *Sequence) Release() error {
 	seq.Lock()
 	defer seq.Unlock()
 
+	// nothing was leased by this instance yet, so there is nothing to give back
+	// (writing the zero value of next would reset the sequence in the store).
+	if seq.reserved == 0 {
+		return nil
+	}
+
 	var buf [8]byte
 	binary.BigEndian.PutUint64(buf[:], seq.next)
 	if err := seq.store.Set(seq.key, buf[:]); err != nil {
